@@ -19,7 +19,7 @@ Definition run_C16 (t : tok) : tok :=
   | 1 => let o := run_demux full_parsers (tnth 1 t) in TL [o; tnth 0 o]
   | 2 => TL [run_mux (tnth 1 t); TI 1]
   | 3 => TI 1
-  | 5 => run_demux full_parsers (tnth 1 t)
+  | 5 => let o := run_demux full_parsers (tnth 1 t) in TL [o; o; o]
   | 4 => let o := TL (map (run_demux full_parsers) (tL (tnth 2 t))) in TL [o; o]
   | _ => TL []
   end.
